@@ -115,6 +115,8 @@ class RebuildProp(Prop):
         c["rel_paths"] = rng.random() < 0.25
         c["file_arg"] = rng.random() < 0.15
         c["nested_search"] = rng.random() < 0.15
+        c["dest_spelling"] = rng.choice([None, None, None, "symlink", "dotdot"])
+        c["search_spelling"] = rng.choice([None, None, None, "symlink", "dotdot"])
         c.update(kw)
         return c
 
@@ -366,7 +368,8 @@ class C19(RebuildProp):
                         f["meta_path"] = comps
                         f["cands"] = [{"cls": "intact", "search": 0, "depth": fi}]
                     out.append({"version": v, "P": B, "tree": t, "meta_src": "ref", "hostile": True, "nsearch": 1,
-                                "unrelated": 1, "clauses": list(self.clauses)})
+                                "unrelated": 1, "clauses": list(self.clauses),
+                                "dest_spelling": (None, "symlink", "dotdot")[(len(out) // 2) % 3]})
                 # hostile torrent name
                 t = mk_tree("D2", (B + 5, 2 * B))
                 for fi, f in enumerate(t["files"]):
